@@ -69,6 +69,12 @@ func genTSSCase(rt *rapid.T, p tssProfile) tssCase {
 	if n > 2 && gen.Chance(rt, "tlt", 2, 3) {
 		c.T = gen.Range(rt, "t2", 1, (n+1)/2) // threshold well below size so committees vary and retries can find members
 	}
+	if p.corrupt && gen.Chance(rt, "largegroup", 1, 16) {
+		// a group larger than the default MaxGroupSize (20): member ids beyond the precomputed Lagrange table and
+		// beyond any bound tied to the default parameter; threshold close to the size so that those ids sign
+		n = gen.OneOf(rt, "bign", 21, 22, 24)
+		c.N, c.T = n, n-gen.OneOf(rt, "bigt", 1, 2, 3)
+	}
 	c.MaxDE = uint64(gen.Range(rt, "maxde", 3, 8))
 	c.Period = uint64(gen.Range(rt, "period", 1, 4))
 	c.MaxAttempt = uint64(gen.OneOf(rt, "maxatt", 1, 2, 3, 3, 4))
@@ -307,6 +313,9 @@ func newTSSWorld(c tssCase, obs tssObs, v *pbt.Verdict) *tssWorld {
 	}
 	tp := tsstypes.DefaultParams()
 	tp.MaxDESize, tp.SigningPeriod, tp.MaxSigningAttempt = c.MaxDE, c.Period, c.MaxAttempt
+	if uint64(c.N) > tp.MaxGroupSize {
+		tp.MaxGroupSize = uint64(c.N) + 1 // governance raised the limit before the group was created
+	}
 	cfg.TSS = &tp
 	bp := bandtsstypes.DefaultParams()
 	bp.FeePerSigner = w.fee
@@ -747,7 +756,7 @@ func (w *tssWorld) run() {
 				}
 			} else {
 				for i := range att.assigned {
-					if op.Mask&(1<<uint(i)) == 0 {
+					if op.Mask != 0xff && op.Mask&(1<<uint(i)) == 0 { // 0xff = every assigned member (committees can exceed 8)
 						continue
 					}
 					// a member that already submitted sends its share again (refused as a duplicate); the tx has been
@@ -1301,6 +1310,9 @@ func (w *tssWorld) finish() {
 	}
 	if w.internalGov > 0 {
 		v.Class("internal-content-via-governance")
+	}
+	if w.c.N > 20 {
+		v.Class("group-larger-than-20")
 	}
 	if w.c.MaxDE >= 256 {
 		v.Class("nonce-queue-beyond-256")
